@@ -365,6 +365,7 @@ func vC04ExtraIssuerAudiences(t *testing.T, out *vEmitter) {
 				if got {
 					accepted++
 				}
+				out.Case("extra-issuer-audience", true, vBool(got), vL("extra_issuer_accepts", vS(vIssuer2+"="+aud), vS(tokAud)))
 				out.Obs("extra-issuer-audience", true, vL(vS(aud), vS(tokAud), vS(form), vI(int64(res.Status))))
 				out.Stat("extra_issuer_audience_tokens", 1)
 				if got != want {
